@@ -250,13 +250,14 @@ Qed.
 
 (* ------------------------------------------------------------------ take_ownership_of_arrays: the loop *)
 
-Definition arrays_body_ok (s h : nat) (F : unit -> pv -> M unit) : Prop :=
-  (forall i k m, F tt (PList [PInt (Z.of_nat i); PInt 0]) k m = (m, Ret tt)) /\
-  (forall i k m d dl lp p0 p1 lv a b,
+(* the loop body may carry any accumulator (locals assigned in the body): its value is irrelevant *)
+Definition arrays_body_ok {A} (s h : nat) (F : A -> pv -> M A) : Prop :=
+  (forall i acc k m, exists acc', F acc (PList [PInt (Z.of_nat i); PInt 0]) k m = (m, Ret acc')) /\
+  (forall i acc k m d dl lp p0 p1 lv a b,
      lookup s (m_structs m) = Some d -> nth_error (sd_levels d) i = Some (lp, [p0; p1]) ->
      lookup h (m_dicts m) = Some dl -> sdict_get "**indices" dl = Some (PList lv) ->
      nth_error lv i = Some (PList [a; b]) ->
-     exists m', F tt (PList [PInt (Z.of_nat i); PInt 1]) k m = (m', Ret tt) /\
+     exists m' acc', F acc (PList [PInt (Z.of_nat i); PInt 1]) k m = (m', Ret acc') /\
                 evolves h m m' (PList (replace_nth i (PList [PGc p0; PGc p1]) lv)) (owned a ++ owned b)).
 
 Lemma replace_nth_app_len : forall A (pre : list A) x y r, replace_nth (List.length pre) y (pre ++ x :: r) = pre ++ y :: r.
@@ -265,39 +266,39 @@ Proof. induction pre; simpl; intros; [reflexivity|now rewrite IHpre]. Qed.
 Lemma nth_error_app_len : forall A (pre : list A) x r, nth_error (pre ++ x :: r) (List.length pre) = Some x.
 Proof. induction pre; simpl; auto. Qed.
 
-Lemma arrays_loop : forall s h F, arrays_body_ok s h F ->
+Lemma arrays_loop : forall A s h (F : A -> pv -> M A), arrays_body_ok s h F ->
   forall ms lsuf suf, wf_levels ms lsuf suf ->
-  forall k d lpre pre m dl,
+  forall k d lpre pre m dl acc,
     List.length lpre = List.length pre -> sd_levels d = lpre ++ lsuf ->
     lookup s (m_structs m) = Some d -> lookup h (m_dicts m) = Some dl ->
     sdict_get "**indices" dl = Some (PList (pre ++ suf)) ->
-    exists m', mfold F (enum_from (List.length pre) (map PInt ms)) tt k m = (m', Ret tt) /\
+    exists m' acc', mfold F (enum_from (List.length pre) (map PInt ms)) acc k m = (m', Ret acc') /\
                evolves h m m' (PList (pre ++ own_from ms lsuf suf)) (flat_map owned suf).
 Proof.
-  intros s h F [Hd Hs]. induction 1; intros k d lpre pre m dl Hlen Hlv Hst Hdi Hsl.
-  - exists m. split; [reflexivity|]. simpl. eapply evolves_refl; eauto.
-  - simpl. rewrite Hd.
-    destruct (IHwf_levels k d (lpre ++ [(lp, [])]) (pre ++ [PList []]) m dl) as (m' & Hr & He); auto.
+  intros A s h F [Hd Hs]. induction 1; intros k d lpre pre m dl acc Hlen Hlv Hst Hdi Hsl.
+  - exists m, acc. split; [reflexivity|]. simpl. eapply evolves_refl; eauto.
+  - cbn [map enum_from mfold]. destruct (Hd (List.length pre) acc k m) as (acc1 & Hr1). cbn [mbind]. rewrite Hr1.
+    destruct (IHwf_levels k d (lpre ++ [(lp, [])]) (pre ++ [PList []]) m dl acc1) as (m' & acc' & Hr & He); auto.
     + rewrite !app_length. simpl. lia.
     + now rewrite <- app_assoc.
     + now rewrite <- app_assoc.
-    + exists m'. rewrite app_length in Hr. simpl in Hr. rewrite Nat.add_1_r in Hr. split; [exact Hr|].
+    + exists m', acc'. rewrite app_length in Hr. simpl in Hr. rewrite Nat.add_1_r in Hr. split; [exact Hr|].
       rewrite <- app_assoc in He. exact He.
-  - simpl.
-    destruct (Hs (List.length pre) k m d dl lp p0 p1 (pre ++ PList [a; b] :: xr) a b) as (m1 & Hr1 & He1); auto.
+  - cbn [map enum_from mfold].
+    destruct (Hs (List.length pre) acc k m d dl lp p0 p1 (pre ++ PList [a; b] :: xr) a b) as (m1 & acc1 & Hr1 & He1); auto.
     { rewrite Hlv, <- Hlen. apply nth_error_app_len. }
     { apply nth_error_app_len. }
-    rewrite Hr1.
+    cbn [mbind]. rewrite Hr1.
     rewrite replace_nth_app_len in He1.
     destruct (ev_dict _ _ _ _ _ He1) as (dl0 & dl1 & Hdl0 & Hdl1 & Hget & _).
-    destruct (IHwf_levels k d (lpre ++ [(lp, [p0; p1])]) (pre ++ [PList [PGc p0; PGc p1]]) m1 dl1) as (m' & Hr & He); auto.
+    destruct (IHwf_levels k d (lpre ++ [(lp, [p0; p1])]) (pre ++ [PList [PGc p0; PGc p1]]) m1 dl1 acc1) as (m' & acc' & Hr & He); auto.
     + rewrite !app_length. simpl. lia.
     + now rewrite <- app_assoc.
     + now rewrite (ev_structs _ _ _ _ _ He1).
     + now rewrite <- app_assoc.
-    + exists m'. rewrite app_length in Hr. simpl in Hr. rewrite Nat.add_1_r in Hr. split; [exact Hr|].
-      rewrite <- app_assoc in He. simpl in He.
-      rewrite ?app_nil_r. eapply evolves_trans; eauto.
+    + exists m', acc'. rewrite app_length in Hr. simpl in Hr. rewrite Nat.add_1_r in Hr. split; [exact Hr|].
+      rewrite <- app_assoc in He. simpl in He. cbn [own_from Z.eqb Pos.eqb nth flat_map].
+      rewrite owned_PList. cbn [flat_map]. rewrite ?app_nil_r. eapply evolves_trans; eauto.
 Qed.
 
 (* a dict store that succeeds *)
@@ -345,6 +346,13 @@ Proof. intros. rewrite <- (map_length f l). apply firstn_all. Qed.
 
 Lemma lookup_In_inv : forall A k (v : A) l, NoDup (map fst l) -> In (k, v) l -> lookup k l = Some v.
 Proof. intros. now apply lookup_NoDup. Qed.
+
+(* an accumulator (unit, or a tuple of carried locals) is split into its components *)
+Ltac destruct_acc :=
+  repeat match goal with
+         | a : (_ * _)%type |- _ => destruct a
+         | a : unit |- _ => destruct a
+         end.
 
 Ltac proj := cbn [m_tensors m_structs m_dicts m_wkd m_heap m_frees m_meta_frees m_gc_log m_next m_next_meta
   drop_value set_heap with_dicts with_gc_log with_next with_structs with_wkd with_tensors].
@@ -400,11 +408,11 @@ Proof.
     rewrite firstn_all.
   match goal with |- runs_to (mbind (mfold ?F _ _) _) _ _ _ => assert (HF : arrays_body_ok s h F) end.
   { split.
-    - intros. repeat mstep. reflexivity.
-    - intros i k0 m0 d0 dl0 lp p0 p1 lv0 a b Hst Hlev Hdi Hsl Hlv0.
+    - intros i acc k0 m0. destruct_acc. eexists. repeat mstep. reflexivity.
+    - intros i acc k0 m0 d0 dl0 lp p0 p1 lv0 a b Hst Hlev Hdi Hsl Hlv0. destruct_acc.
       assert (Hlt : Nat.ltb i (List.length (sd_levels d0)) = true)
         by (apply Nat.ltb_lt; apply nth_error_Some; congruence).
-      eexists. split. { repeat mstep. reflexivity. }
+      eexists. eexists. split. { repeat mstep. reflexivity. }
       rewrite ?replace_nth_twice. constructor; proj; try reflexivity.
       all: first
         [ solve [intros; rewrite ?lookup_update_other by auto; reflexivity]
@@ -414,8 +422,9 @@ Proof.
                  | intros; rewrite !sdict_get_set_other by auto; reflexivity ]]
         | solve [rewrite ?release_all_app, ?map_app; reflexivity]
         | solve [rewrite ?gc_frees_app, ?app_assoc; reflexivity] ]. }
-  destruct (arrays_loop s h _ HF _ _ _ Wf k d [] [] m dl eq_refl eq_refl Hs Hd Hlv) as (m1 & Hr & He).
-  eapply runs_bind; [exact Hr|]. clear Hr HF.
+  match goal with |- runs_to (mbind (mfold _ _ ?acc0) _) _ _ _ =>
+    destruct (arrays_loop _ s h _ HF _ _ _ Wf k d [] [] m dl acc0 eq_refl eq_refl Hs Hd Hlv) as (m1 & acc1 & Hr & He) end.
+  eapply runs_bind; [exact Hr|]. clear Hr HF. destruct_acc.
   destruct (ev_dict _ _ _ _ _ He) as (dl0 & dl1 & Hdl0 & Hdl1 & Hget1 & Hoth1).
   assert (dl0 = dl) by congruence. subst dl0.
   assert (Hs1 : lookup s (m_structs m1) = Some d) by (now rewrite (ev_structs _ _ _ _ _ He)).
